@@ -8,7 +8,7 @@ Per format two sub-checks:
   <fmt>_ext  (oracle 3) the independent writer writes the same content with the layout variations the importer is meant to
              accept; mouette loads it and must produce the normal form of that content.
 """
-import os, sys, json, math, struct, random, shutil, tempfile, subprocess
+import os, re, sys, json, math, struct, random, shutil, tempfile, subprocess
 from hypothesis import strategies as st
 from vlib.runner import SubCheck, REPO
 from vlib import gen_surface as G
@@ -24,15 +24,31 @@ RULE = ("Generated meshes of every class (point clouds, polylines = paths/cycles
         "attribute round trip; <fmt>_ext = file written by the independent writer with layout variation, load by mouette) "
         "x config switches (export_edges_in_obj, complete_edges_from_faces) x ignore_elements x lower/upper-case extension "
         "x (geogram) 0-4 user attributes (bool/int/float arity 1-3, sparse/dense, custom default, on any container; complex/str as a "
-        "labelled class). non-trivial = the mesh holds an element kind beyond vertices that the format expresses and a non-integer "
+        "labelled class; the values of a str attribute follow the flavour drawn for the case: plain ASCII words, text outside ASCII = "
+        "Latin-1 accented letters / other BMP scripts and typographic signs / characters beyond the BMP / base letter + combining mark / "
+        "a mix, ASCII punctuation, text that reads as a number or keyword ('1e5', 'nan', 'True'); empty and > 32 characters in each) "
+        "x file name (dots, blank, sub-directory, mixed-case extension, file and directory names outside ASCII) "
+        "x (<fmt>_ext) how the foreign file is spelled, none of which changes its meaning: LF / CRLF line ends, last line with / without "
+        "line end, blanks / tabs as separators and indentation, exponent spelling of the numbers (1.5e-07, 1.5E-07, 1.5e-7, 1E22, 1.5e-007), "
+        "free text outside ASCII (UTF-8) where the format has room for it and the importer skips it: whole-line '#' comments + mtllib / o / g / "
+        "usemtl names (obj), head comment line (medit), trailing '#' comments (geogram), solid names (ascii stl), the 80 header bytes of a "
+        "binary stl (UTF-8, possibly cut inside a character, or Latin-1 bytes). non-trivial = the mesh holds an element kind beyond vertices that the format expresses and a non-integer "
         "coordinate (xyz: >=2 points and a non-integer coordinate); distinct = distinct realised (mesh, format, switches, attributes, "
         "variation).")
 ASSUMPTIONS = ["meshes are valid inputs of the mesh classes (manifold surfaces, conforming cell complexes, distinct declared edges that are face sides)",
                "coordinates are finite; for stl within the float32 range (the format stores float32)",
                "stl expresses triangles and quads (as two triangles); for larger polygons the exporter's explicit ValueError refusal is accepted",
-               "attribute names match [A-Za-z_][A-Za-z0-9_]* and avoid the names reserved by mouette / geogram",
-               "string attribute values hold no whitespace, '#', line break or bracket (the format stores one value per line); any length "
-               "(values of a dense string attribute are cut to 32 characters when stored, as documented: what is compared is what the mesh held)",
+               "attribute names match [A-Za-z_][A-Za-z0-9_]* and avoid the names reserved by mouette / geogram (nothing documents other names: "
+               "names outside ASCII are not asserted)",
+               "string attribute values hold no whitespace (in the Unicode sense: no NBSP, no U+2028 ...), '#', line break or square bracket (the "
+               "format stores one value per line); any other character of valid Unicode text (no lone surrogate, no control character), any length "
+               "(values of a dense string attribute are cut to 32 characters = code points when stored, as documented: what is compared is what the mesh held)",
+               "text outside ASCII is stored in files as UTF-8, the default text encoding of the process the checks run in (POSIX locale / UTF-8 mode); "
+               "if the process has another default encoding the non-ASCII classes are replaced by ASCII text (label env:not-utf8): what such text becomes "
+               "then depends on the locale",
+               "spellings of foreign files are limited to what the importers' own parsing accepts by construction: text mode with universal newlines, "
+               "str.split() on any white space, float() / numpy.float64() on the number tokens (so no Fortran 'D' exponents, no decimal commas), lines "
+               "whose first token is unknown skipped (obj, medit), text after '#' dropped (geogram); no byte order mark, no comments in off / tet / xyz",
                "config switches are constant during a case (build, save, load)",
                "layout variation of foreign files is limited to the forms the importers' own handling shows as intended (DESIGN C04 oracle 3)"]
 
@@ -308,7 +324,7 @@ def mesh_content(draw, fmt):
             "C": [list(map(int, c)) for c in C], "tags": tags}
 
 
-def attr_value(typ):
+def attr_value(typ, str_bias="any"):
     if typ == "float":
         return coord()
     if typ == "int":
@@ -322,12 +338,104 @@ def attr_value(typ):
         return st.tuples(st.floats(-10, 10), st.floats(-10, 10)).map(lambda t: complex(*t))
     # (values longer than 32 characters: the 32-character limit is documented for the dense storage only, where the value
     #  is already cut when it is stored; the sparse storage keeps - and must round-trip - the whole string)
-    return st.one_of(st.just(""), st.text(alphabet="abcXYZ019_", min_size=1, max_size=8), st.text(alphabet="abcXYZ019_", max_size=8),
-                     st.text(alphabet="abcXYZ019_", min_size=33, max_size=70))
+    plain = [st.just(""), st.text(alphabet=STR_BASE, min_size=1, max_size=8), st.text(alphabet=STR_BASE, max_size=8),
+             st.text(alphabet=STR_BASE, min_size=33, max_size=70)]
+    # text that is not ASCII (accented letters, other scripts, typographic signs, characters beyond the BMP, combining marks after
+    # their base letter), ASCII punctuation, text that reads as a number / a keyword; str_bias = the flavour of the case
+    if str_bias == "ascii":
+        return st.one_of(*plain)
+    if str_bias in NA_UNITS or str_bias == "mixed":
+        return st.one_of(plain[0], plain[1], na_text(False, str_bias), na_text(False, str_bias), na_text(True, str_bias))
+    if str_bias == "punct":
+        return st.one_of(plain[0], plain[1], punct_text(), punct_text())
+    if str_bias == "numlike":
+        return st.one_of(plain[0], plain[1], st.sampled_from(NUMLIKE), st.sampled_from(NUMLIKE))
+    return st.one_of(*plain, na_text(False), na_text(True), punct_text(), st.sampled_from(NUMLIKE))
+
+
+STR_BASE = "abcXYZ019_"
+# units a non-ASCII value is made of, by class (none of them is white space for str.strip / str.split, none is '#', '[' or ']')
+NA_UNITS = {"latin1": list("\u00e9\u00e0\u00fc\u00df\u00f1\u00e7\u00d8\u00ff"),             # one byte in Latin-1 / cp1252, two in UTF-8
+            "bmp": list("\u0151\u0141\u017e\u03bb\u03a9\u0436\u042f\u2013\u2014\u2116\u20ac\u201c\u201d\u2026\u89d2\u65e5\u672c\u8a9e\ud55c"),
+            "astral": ["\U0001F600", "\U0001D49C", "\U0002000B"],                                # four bytes in UTF-8, a surrogate pair in UTF-16
+            "combining": ["e\u0301", "o\u0308", "n\u0303", "\u0915\u093f"]}                     # base letter + combining mark (not normalised)
+NA_ALL = [u for k in sorted(NA_UNITS) for u in NA_UNITS[k]]
+PUNCT = list("-.+:/=,;'!?*%&@~^|()<>{}$\"\\")
+NUMLIKE = ["3.5", "1e5", "-0", "True", "nan", "1", "0", "inf", "1+2j", "0x1F", "1_000", "None", "-1.5E+07"]
 
 
 @st.composite
-def attr_spec(draw, k, containers, exotic, force_type=None):
+def na_text(draw, long, cls=None):
+    """a string with at least one character outside ASCII; long = more than 32 characters"""
+    cls = cls or draw(st.sampled_from(["latin1", "latin1", "bmp", "bmp", "astral", "combining", "mixed"]))
+    pool = NA_ALL if cls == "mixed" else NA_UNITS[cls]
+    units = list(STR_BASE) + pool + pool
+    lo, hi = (17, 30) if long else (0, 4)
+    a = draw(st.lists(st.sampled_from(units), min_size=lo, max_size=hi))
+    b = draw(st.lists(st.sampled_from(units), min_size=lo, max_size=hi))
+    return "".join(a) + draw(st.sampled_from(pool)) + "".join(b)
+
+
+def punct_text():
+    units = list(STR_BASE) + PUNCT + PUNCT
+    return st.tuples(st.lists(st.sampled_from(units), max_size=4), st.sampled_from(PUNCT), st.lists(st.sampled_from(units), max_size=4)) \
+        .map(lambda t: "".join(t[0]) + t[1] + "".join(t[2]))
+
+
+def str_classes(x):
+    """labels of one string value"""
+    out = set()
+    if not x.isascii():
+        out.add("nonascii")
+        for ch in x:
+            o = ord(ch)
+            if o >= 0x10000: out.add("nonascii:astral")
+            elif 0x300 <= o < 0x370 or o == 0x93f: out.add("nonascii:combining")
+            elif 0x80 <= o < 0x100: out.add("nonascii:latin1")
+            elif o >= 0x100: out.add("nonascii:bmp")
+    if any(ch in PUNCT for ch in x):
+        out.add("ascii-punctuation")
+    if x in NUMLIKE:
+        out.add("reads-as-number-or-keyword")
+    return out
+
+
+def default_text_encoding():
+    """the encoding open() uses when none is given (what the library's readers and writers rely on)"""
+    import io, codecs
+    try:
+        return codecs.lookup(io.TextIOWrapper(io.BytesIO()).encoding).name
+    except Exception:
+        return "unknown"
+
+
+def utf8_process():
+    return default_text_encoding() == "utf-8" and sys.getfilesystemencoding().lower().replace("-", "") == "utf8"
+
+
+def ascii_only(x):
+    if isinstance(x, str):
+        return x.encode("ascii", "replace").decode("ascii")
+    if isinstance(x, list):
+        return [ascii_only(y) for y in x]
+    return x
+
+
+def without_non_ascii(case):
+    """the same case with every character outside ASCII replaced (used only when the process does not run with UTF-8 as its default
+    text encoding: what such text becomes then depends on the locale, which the property says nothing about)"""
+    c = dict(case)
+    c["attrs"] = [dict(a, default=ascii_only(a["default"]), vals=[[i, ascii_only(v)] for i, v in a["vals"]]) if a["type"] == "str" else a
+                  for a in case.get("attrs", [])]
+    if case.get("name_form") in NAME_FORMS_NA:
+        c["name_form"] = "m"
+    if case.get("var"):
+        c["var"] = dict(case["var"], text=None)
+    return c
+
+
+@st.composite
+def attr_spec(draw, k, containers, exotic, force_type=None, str_bias="any"):
     cont = draw(st.sampled_from(containers))
     typ = force_type or (draw(st.sampled_from(["complex", "str"])) if exotic else draw(st.sampled_from(["float", "float", "int", "bool"])))
     dim = draw(st.sampled_from([1, 1, 2, 3]))
@@ -335,7 +443,7 @@ def attr_spec(draw, k, containers, exotic, force_type=None):
     if name in RESERVED:
         name = name + "_"
     name = f"{name}{k}"           # distinct names within a case
-    vv = attr_value(typ)
+    vv = attr_value(typ, str_bias)
     one = vv if dim == 1 else st.lists(vv, min_size=dim, max_size=dim)
     # custom default: a scalar of the attribute's type, for every arity (a vector attribute then reads (d, ..., d) where nothing was written)
     default = draw(st.one_of(st.none(), vv, vv))
@@ -370,6 +478,18 @@ def attr_spec(draw, k, containers, exotic, force_type=None):
 
 @st.composite
 def case_strategy(draw, fmt):
+    # (drawn before the mesh: what Hypothesis draws late in a big case collapses to the first choice far too often)
+    # foreign files: line ends (LF / CRLF), last line without line end, tabs as separators, spelling of the exponent of a number,
+    # text outside ASCII where the format has room for free text (comments, object / group / material / solid names, binary stl header);
+    # file and directory names outside ASCII; the flavour of the text attributes of this case
+    pre = {"eol": draw(st.sampled_from(["lf", "lf", "lf", "crlf", "crlf"])),
+           "final_newline": draw(st.sampled_from([True, True, True, False])),
+           "tabs": draw(st.sampled_from([False, False, False, True])),
+           "exp": draw(st.sampled_from([None, None, None, "E", "short", "E-short", "pad3"])),
+           "text": draw(st.sampled_from([None, None] + list(range(len(NA_TEXTS)))))}
+    name_form = draw(st.sampled_from(["m", "m", "m", "m.v1.2", "my mesh", "sub.dir/m", "Mixed"] + sorted(NAME_FORMS_NA)))
+    str_bias = draw(st.sampled_from(["any", "ascii", "latin1", "latin1", "bmp", "bmp", "astral", "combining", "mixed", "mixed", "punct", "numlike"]))
+    stl_kind = draw(st.sampled_from(["binary", "binary", "ascii"]))
     c = draw(mesh_content(fmt))
     c["fmt"] = fmt
     c["cfg"] = {"export_edges_in_obj": draw(st.sampled_from([True, True, True, False])) if fmt == "obj" else True,
@@ -395,9 +515,9 @@ def case_strategy(draw, fmt):
         n = draw(st.sampled_from([0, 1, 1, 2, 3, 4]))
         exotic = draw(st.integers(0, 9)) == 0
         for k in range(n):
-            attrs.append(draw(attr_spec(k, conts, exotic and k == 0)))
-        if draw(st.integers(0, 3)) == 0:
-            attrs.append(draw(attr_spec(len(attrs), conts, True, force_type="str")))
+            attrs.append(draw(attr_spec(k, conts, exotic and k == 0, str_bias=str_bias)))
+        if draw(st.integers(0, 2)) == 0:
+            attrs.append(draw(attr_spec(len(attrs), conts, True, force_type="str", str_bias=str_bias)))
     if fmt == "xyz" and draw(st.booleans()):
         attrs.append({"cont": "vertices", "name": "normals", "type": "float", "dim": 3, "dense": draw(st.booleans()), "default": None,
                       "vals": draw(st.lists(st.tuples(st.integers(0, 10 ** 4), st.lists(coord(), min_size=3, max_size=3)).map(list), max_size=5)),
@@ -416,7 +536,7 @@ def case_strategy(draw, fmt):
     c["var"] = {"blank": draw(st.booleans()), "spaces": draw(st.booleans()), "floats": draw(st.sampled_from(["repr", "repr", "17g", "17e"])),
                 "seed": draw(st.integers(0, 11)), "face_style": draw(st.sampled_from(["v", "v", "v/vt", "v//vn", "v/vt/vn"])),
                 "dim_two_lines": draw(st.booleans()), "refs": draw(st.booleans()), "extra_blocks": draw(st.booleans()),
-                "comments": draw(st.booleans()), "end": draw(st.booleans()), "stl_kind": draw(st.sampled_from(["binary", "binary", "ascii"])),
+                "comments": draw(st.booleans()), "end": draw(st.booleans()), "stl_kind": "binary",
                 "indent": draw(st.booleans()),
                 # several 'solid ... endsolid' blocks in one ascii stl file (one per part); 'o' / 'g' / 's' records in obj files
                 "solids": draw(st.sampled_from([1, 1, 2, 3, 5])), "groups": draw(st.booleans())}
@@ -428,7 +548,9 @@ def case_strategy(draw, fmt):
     c["rows_form"] = draw(st.sampled_from(["list", "list", "tuple", "int64", "int32", "int16", "uint8"]))
     c["var"]["off_colors"] = draw(st.sampled_from([None, None, "index", "rgb", "rgba"]))
     # file name forms: extension in lower / upper / mixed case, dots and a blank in the path; a failing call before the real one
-    c["name_form"] = draw(st.sampled_from(["m", "m", "m.v1.2", "my mesh", "sub.dir/m", "Mixed"]))
+    c["name_form"] = name_form
+    c["var"].update(pre)
+    c["var"]["stl_kind"] = stl_kind
     c["after_raise"] = draw(st.integers(0, 5)) == 0
     # another mesh of the same element counts built, saved, loaded and dropped (garbage collected) just before the one under test;
     # the mesh saved directly or through copy.deepcopy / mouette.mesh.copy / a pickle round trip
@@ -849,7 +971,8 @@ def label_case(case, ctx, N):
             ctx.label("attr:str:long>32:" + ("dense" if a["dense"] else "sparse"))
     if case["F"] or case["C"]:
         ctx.label("rows=" + rows_form_of(case))
-    ctx.label("name=" + case.get("name_form", "m"))
+    nf = case.get("name_form", "m")
+    ctx.label("name=" + (nf if nf.isascii() else "non-ascii:" + nf.encode("ascii", "backslashreplace").decode("ascii")))
     for a in case.get("attrs", []):
         if a["type"] == "int" and any(abs(x) > 2 ** 53 for _, v in a["vals"] for x in (v if isinstance(v, list) else [v])):
             ctx.label("attr:int:>2**53:" + ("dense" if a["dense"] else "sparse") + f":x{a['dim']}")
@@ -912,6 +1035,9 @@ def prelude(case, ctx):
 
 def fn_roundtrip(case, ctx):
     import mouette as M
+    if not utf8_process():
+        case = without_non_ascii(case)
+        ctx.label("env:not-utf8(non-ascii text left out)")
     fmt = case["fmt"]
     cfg = case["cfg"]
     set_config(case)
@@ -947,6 +1073,12 @@ def fn_roundtrip(case, ctx):
         if a["type"] == "str":
             flat = [x for v in vals for x in (v if isinstance(v, list) else [v])]
             last = max([i for i, x in enumerate(flat) if x != ""], default=-1)
+            for k in sorted(set(k for x in flat for k in str_classes(x))):
+                ctx.label("attr:str:" + k)
+                if k == "nonascii":
+                    ctx.label(f"attr:str:nonascii:x{a['dim']}:{'dense' if a['dense'] else 'sparse'}")
+                    if any(len(x) > 32 and not x.isascii() for x in flat):
+                        ctx.label("attr:str:nonascii:long>32")
             if any(x == "" for x in flat[:last]):
                 ctx.label("attr:str:empty-before-nonempty")
                 ctx.label(f"attr:str:gap:x{a['dim']}:{'dense' if a['dense'] else 'sparse'}")
@@ -1172,6 +1304,10 @@ def second_load(ctx, path, mode, snap, exp, P):
                   "load2:differs", f"load(dim={k}) changed the content: {short(s2, 300)} vs {short(snap, 300)}")
 
 
+# file and directory names outside ASCII ({} = the stem)
+NAME_FORMS_NA = {"m\u00e9": "{}\u00e9", "\u00e9t\u00e9/m": "\u00e9t\u00e9/{}", "\u89d2 m": "\u89d2 {}"}
+
+
 def file_path(d, case, stem):
     fmt = case["fmt"]
     nf = case.get("name_form", "m")
@@ -1179,7 +1315,10 @@ def file_path(d, case, stem):
     if nf == "Mixed":
         ext = fmt[:1].upper() + fmt[1:]
         nf = "m"
-    name = nf.replace("m", stem, 1) if nf != "my mesh" else stem + " mesh"
+    if nf in NAME_FORMS_NA:
+        name = NAME_FORMS_NA[nf].format(stem)
+    else:
+        name = nf.replace("m", stem, 1) if nf != "my mesh" else stem + " mesh"
     full = os.path.join(d, name + "." + ext)
     os.makedirs(os.path.dirname(full), exist_ok=True)
     return full
@@ -1193,7 +1332,84 @@ def attr_dropped(cont, ignore):
 
 # ================================================================================================ oracle 3
 
+# free text a foreign program may leave in a file (comments, names): accents, other scripts, typographic signs, beyond the BMP, combining mark
+NA_TEXTS = ["cr\u00e9\u00e9 par l'\u00e9diteur", "W\u00fcrfel gr\u00f6\u00dfe", "\u043d\u0430\u0437\u0432\u0430\u043d\u0438\u0435 \u043e\u0431\u044a\u0435\u043a\u0442\u0430",
+            "\u90e8\u54c1 \u89d2", "na\u00efve \u2013 \u2116 5 \u20ac", "pi\u00e8ce \U0001F600 \U0001D49C", "cafe\u0301 mode\u0300le"]
+_EXP_RE = re.compile(r'(?<![\w."+-])([-+]?(?:\d+\.?\d*|\.\d+))[eE]([-+]?)(\d+)(?![\w."])')
+
+
+def respell_exponents(text, mode):
+    """(text, count): every number written with an exponent gets the exponent spelled another way, same decimal value:
+    'E' 1.5E-07 | 'short' 1.5e-7, 1e22 | 'E-short' 1.5E-7 | 'pad3' 1.5e-007, 1e+022 (all accepted by float() / strtod)"""
+    n = [0]
+
+    def sub(m):
+        mant, sign, digs = m.group(1), m.group(2), m.group(3)
+        e = "E" if mode.startswith("E") else "e"
+        if mode.endswith("short"):
+            sign = "" if sign == "+" else sign
+            digs = digs.lstrip("0") or "0"
+        elif mode == "pad3":
+            digs = digs.zfill(3)
+        n[0] += 1
+        return mant + e + sign + digs
+    return _EXP_RE.sub(sub, text), n[0]
+
+
+def vary_text(content, fmt, var, ctx):
+    """Layout / spelling variations applied to the content the independent writer produced; none changes what the file means.
+    str or bytes in, bytes out."""
+    ti = var.get("text")
+    txt = NA_TEXTS[ti % len(NA_TEXTS)] if ti is not None else None
+    if isinstance(content, bytes) and fmt == "stl" and var.get("stl_kind") == "binary":
+        if txt is not None and len(content) >= 84:
+            # the 80 header bytes are free: text in UTF-8 (possibly cut inside a character) or in a one-byte code page
+            enc = "utf-8" if (var.get("seed", 0) + ti) % 2 == 0 else "latin-1"
+            head = ((txt + " ") * 6).encode(enc, "replace")[:80].ljust(80, b" ")
+            content = head + content[80:]
+            ctx.label("var:text=nonascii:stl-binary-header:" + enc)
+        return content
+    text = content.decode("ascii") if isinstance(content, bytes) else content
+    if txt is not None:
+        where = None
+        if fmt == "obj":
+            text = f"# {txt}\nmtllib {txt}.mtl\n" + text
+            where = "obj-comment+mtllib"
+            if "o object0\n" in text:
+                text = text.replace("o object0\n", f"o {txt}\nusemtl {txt}\n").replace("\ng part", "\ng " + txt.split()[0] + "_")
+                where += "+o+g+usemtl"
+        elif fmt == "mesh":
+            text = f"# {txt}\n" + text
+            where = "medit-head-comment"
+        elif fmt == "geogram_ascii" and var.get("comments"):
+            text = re.sub(r"# c(\d+)", lambda m: "# " + txt + " " + m.group(1), text)
+            where = "geogram-comments"
+        elif fmt == "stl":
+            text = text.replace("solid ref", "solid " + txt)
+            where = "stl-ascii-solid-name"
+        if where:
+            ctx.label("var:text=nonascii:" + where)
+    if var.get("exp"):
+        text, n = respell_exponents(text, var["exp"])
+        if n:
+            ctx.label("var:exp=" + var["exp"])
+    if var.get("tabs"):
+        text = re.sub(r"(?<=\S) +(?=\S)", "\t", re.sub(r"(?m)^ +", "\t", text))
+        if "\t" in text:
+            ctx.label("var:tabs")
+    if var.get("eol") == "crlf":
+        text = text.replace("\n", "\r\n")
+        ctx.label("var:eol=crlf")
+    if var.get("final_newline") is False and text.endswith("\n"):
+        text = text[:-2] if text.endswith("\r\n") else text[:-1]
+        ctx.label("var:no-final-newline")
+    return text.encode("utf-8")
+
+
 def fn_ext(case, ctx):
+    if not utf8_process():
+        case = without_non_ascii(case)
+        ctx.label("env:not-utf8(non-ascii text left out)")
     fmt = case["fmt"]
     cfg = case["cfg"]
     var = case["var"]
@@ -1275,7 +1491,7 @@ def fn_ext(case, ctx):
             else:
                 text = R.write_stl_ascii(tris, "ref", var)
         with open(path, "wb") as f:
-            f.write(text if isinstance(text, bytes) else text.encode("utf-8"))
+            f.write(vary_text(text, fmt, var, ctx))
         res = guarded_load(path, fmt, ctx, "ext:load")
         if res is None:
             return
@@ -1354,7 +1570,9 @@ def large_case(draw):
             "var": {"blank": False, "spaces": False, "floats": draw(st.sampled_from(["repr", "17g"])), "seed": draw(st.integers(0, 11)),
                     "face_style": draw(st.sampled_from(["v", "v//vn"])), "dim_two_lines": False, "refs": draw(st.booleans()), "extra_blocks": False,
                     "comments": False, "end": True, "stl_kind": draw(st.sampled_from(["binary", "ascii"])), "indent": True,
-                    "solids": draw(st.sampled_from([1, 2])), "groups": draw(st.booleans())},
+                    "solids": draw(st.sampled_from([1, 2])), "groups": draw(st.booleans()),
+                    "eol": draw(st.sampled_from(["lf", "crlf"])), "tabs": draw(st.sampled_from([False, False, True])),
+                    "final_newline": draw(st.booleans())},
             "vform": draw(st.sampled_from(["list", "numpy"]))}
 
 
